@@ -9,8 +9,8 @@ PROP = {
             "transform_point = linear*p + translation, transform_vector = the same map with zero translation, A*B entries, (A*B)*v = A*(B*v); exact on integers in [-16,16], within k*u*sum|terms| on reals. "
             "A case is non-trivial when all entries of A are pairwise distinct (any permutation is visible) or a NaN / -0 entry is present; distinct = distinct hash of (type, backend, words).",
     "builds": {
-        "quick": [B("stable"), B("fma", 0.25), B("nightly", 0.25, False)],
-        "thorough": [B("stable"), B("fma", 0.5), B("nightly", 0.5, False)],
+        "quick": [B("stable"), B("chk", 0.25, False), B("fma", 0.25), B("nightly", 0.25, False)],
+        "thorough": [B("stable"), B("chk", 0.25, False), B("fma", 0.5), B("nightly", 0.5, False)],
     },
     "volume": {"quick": 6},
     "technique": "property-based testing: proptest generators of entry bit patterns / integer / real operands against an array-of-bits model of column-major storage and an exact i128 / f64 / double-double "
